@@ -77,8 +77,10 @@ func rulesC10(r *Run) {
 	ruleSkipRecoveredChecks(r, "R3")
 	ruleRecoveryNoEarlyWrite(r, "R3")
 	ruleRecoveryPersistsFixes(r, "R3")
+	ruleEndWritesChildrenFirst(r, "R3")
 	ruleRepairThenClassifyAll(r, "R3")
-	r.Expect("R3", 33)
+	ruleFixVerdictStickyAll(r, "R3")
+	r.Expect("R3", 37)
 
 	r.Kind("R4", "K1+K3")
 	ruleRecoveryDeferred(r, "R4", m)
@@ -1717,19 +1719,8 @@ func ruleRecoveryPersistsFixes(r *Run, rule string) {
 	if !ok {
 		return
 	}
-	g := r.P.CallGraph()
-	all := []string{"UpdatePlan", "UpdateBlock", "UpdateChecks", "UpdateSequence", "UpdateAction"}
-	updatesReached := func(key string) map[string]bool {
-		out := map[string]bool{}
-		for k := range g.Reach([]string{key}, func(e CallEdge) bool {
-			return strings.HasPrefix(e.Callee, pkgSM+".") || strings.HasPrefix(e.Callee, "workflow/storage.")
-		}) {
-			if strings.HasPrefix(k, "workflow/storage.") {
-				out[k[strings.LastIndex(k, ".")+1:]] = true
-			}
-		}
-		return out
-	}
+	all := allUpdaters
+	updatesReached := func(key string) map[string]bool { return updatesReachedFrom(r, key) }
 	bad := ""
 	var bpos = fn.Decl.Pos()
 	n := 0
@@ -1780,51 +1771,122 @@ func ruleRecoveryPersistsFixes(r *Run, rule string) {
 	badOrder := ""
 	var opos = fn.Decl.Pos()
 	for k := range writers {
-		w := r.P.Funcs[k]
-		if w == nil || w.Decl.Body == nil {
-			continue
-		}
-		info := w.Pkg.TypesInfo
-		descending, walkOrder := false, false
-		writesIn := func(body ast.Node) bool {
-			found := false
-			ast.Inspect(body, func(x ast.Node) bool {
-				if c, ok := x.(*ast.CallExpr); ok {
-					if f, ok := calleeFunc(info, c); ok {
-						fk := FuncKey(f)
-						if strings.HasPrefix(fk, "workflow/storage.") && strings.Contains(fk, ".Update") {
-							found = true
-						} else if strings.HasPrefix(fk, pkgSM+".") && len(updatesReached(fk)) > 0 {
-							found = true
-						}
-					}
-				}
-				return !found
-			})
-			return found
-		}
-		ast.Inspect(w.Decl.Body, func(x ast.Node) bool {
-			switch l := x.(type) {
-			case *ast.RangeStmt:
-				if c, ok := ast.Unparen(l.X).(*ast.CallExpr); ok {
-					if f, ok := calleeFunc(info, c); ok && FuncKey(f) == "workflow/utils/walk.Plan" && writesIn(l.Body) {
-						walkOrder = true
-						opos = l.Pos()
-					}
-				}
-			case *ast.ForStmt:
-				if post, ok := l.Post.(*ast.IncDecStmt); ok && post.Tok == token.DEC && writesIn(l.Body) {
-					descending = true
-				}
+		if msg, pos := writerOrderProblem(r, k); msg != "" && badOrder == "" {
+			badOrder = msg
+			if pos.IsValid() {
+				opos = pos
 			}
-			return true
-		})
-		if (walkOrder || !descending) && badOrder == "" {
-			badOrder = ShortFn(k) + " writes the objects in walk order (an object before what it contains): a crash during these writes can leave a parent stored as finished over a child whose repair was not written yet, which the next recovery then never looks at again — the repairs must be written children first"
 		}
 	}
 	if len(writers) == 0 {
 		badOrder = "Recovery has no write-back of the repairs at all on its resuming path, so they are not written children first either"
 	}
 	r.Check(rule, "Recovery:repairs-written-children-first", opos, badOrder == "", "%s", orOK(badOrder, "written from the end of the walk backwards"))
+}
+
+var allUpdaters = []string{"UpdatePlan", "UpdateBlock", "UpdateChecks", "UpdateSequence", "UpdateAction"}
+
+// updatesReachedFrom: the storage Update* methods reachable from an sm function through sm functions.
+func updatesReachedFrom(r *Run, key string) map[string]bool {
+	g := r.P.CallGraph()
+	out := map[string]bool{}
+	for k := range g.Reach([]string{key}, func(e CallEdge) bool {
+		return strings.HasPrefix(e.Callee, pkgSM+".") || strings.HasPrefix(e.Callee, "workflow/storage.")
+	}) {
+		if strings.HasPrefix(k, "workflow/storage.") {
+			out[k[strings.LastIndex(k, ".")+1:]] = true
+		}
+	}
+	return out
+}
+
+// writerOrderProblem: does the function that writes a whole plan write an object before what it contains?
+// walk.Plan yields parents first, so a writer is accepted when its writes happen in a descending loop (over the
+// collected walk) and not in a loop that ranges over walk.Plan directly.
+func writerOrderProblem(r *Run, k string) (string, token.Pos) {
+	w := r.P.Funcs[k]
+	if w == nil || w.Decl.Body == nil {
+		return "", 0
+	}
+	var opos token.Pos = w.Decl.Pos()
+	info := w.Pkg.TypesInfo
+	descending, walkOrder := false, false
+	writesIn := func(body ast.Node) bool {
+		found := false
+		ast.Inspect(body, func(x ast.Node) bool {
+			if c, ok := x.(*ast.CallExpr); ok {
+				if f, ok := calleeFunc(info, c); ok {
+					fk := FuncKey(f)
+					if strings.HasPrefix(fk, "workflow/storage.") && strings.Contains(fk, ".Update") {
+						found = true
+					} else if strings.HasPrefix(fk, pkgSM+".") && len(updatesReachedFrom(r, fk)) > 0 {
+						found = true
+					}
+				}
+			}
+			return !found
+		})
+		return found
+	}
+	ast.Inspect(w.Decl.Body, func(x ast.Node) bool {
+		switch l := x.(type) {
+		case *ast.RangeStmt:
+			if c, ok := ast.Unparen(l.X).(*ast.CallExpr); ok {
+				if f, ok := calleeFunc(info, c); ok && FuncKey(f) == "workflow/utils/walk.Plan" && writesIn(l.Body) {
+					walkOrder = true
+					opos = l.Pos()
+				}
+			}
+		case *ast.ForStmt:
+			if post, ok := l.Post.(*ast.IncDecStmt); ok && post.Tok == token.DEC && writesIn(l.Body) {
+				descending = true
+			}
+		}
+		return true
+	})
+	if walkOrder || !descending {
+		return ShortFn(k) + " writes the objects in walk order (an object before what it contains): a crash during these writes can leave a parent stored as finished over a child that was not written yet, which the next recovery then never looks at again — children must be written first", opos
+	}
+	return "", 0
+}
+
+// endWriterKey: the sm function End calls (in place or deferred) that reaches every storage updater.
+func endWriterKey(r *Run) string {
+	fn := r.P.Funcs[smKey("End")]
+	if fn == nil || fn.Decl.Body == nil {
+		return ""
+	}
+	info := fn.Pkg.TypesInfo
+	key := ""
+	ast.Inspect(fn.Decl.Body, func(x ast.Node) bool {
+		if c, ok := x.(*ast.CallExpr); ok && key == "" {
+			if f, ok := calleeFunc(info, c); ok {
+				if k := FuncKey(f); strings.HasPrefix(k, pkgSM+".") && len(updatesReachedFrom(r, k)) == len(allUpdaters) {
+					key = k
+				}
+			}
+		}
+		return key == ""
+	})
+	return key
+}
+
+// ruleEndWritesChildrenFirst (D33): the final state is stored children first, the plan last. A plan stored as ended
+// is never looked at again, so everything it contains must be durable before it — on the way from Recovery to End
+// what fixPlan repaired exists only in memory until these writes.
+func ruleEndWritesChildrenFirst(r *Run, rule string) {
+	fn := r.fnByKey(rule, smKey("End"))
+	if fn == nil {
+		return
+	}
+	k := endWriterKey(r)
+	if k == "" {
+		r.Unresolved(rule, "End calls a function that writes every kind of object")
+		return
+	}
+	msg, pos := writerOrderProblem(r, k)
+	if !pos.IsValid() {
+		pos = fn.Decl.Pos()
+	}
+	r.Check(rule, "End:final-state-written-children-first", pos, msg == "", "%s", orOK(msg, "the plan is written after everything it contains"))
 }
